@@ -5,6 +5,8 @@ NK = 6
 
 SELECTORS = ['a', 'b:hover', 'c[d="{;}"]', 'e::before', 'f > g', '.h:not(.i)']
 DECLS = [('c', 'd'), ('e', '"x;}{" f'), ('$v', '1px'), ('--cp', '2'), ('g', 'url(a:b)'), ('m', '1px 2px')]
+# value tokens (relative to the value start) per declaration variant
+TOKENS = {'d': [(0, 1)], '"x;}{" f': [(0, 6), (7, 8)], '1px': [(0, 3)], '2': [(0, 1)], 'url(a:b)': [(0, 8)], '1px 2px': [(0, 3), (4, 7)]}
 WS = ['', ' ', '\n\t', '  ']
 
 
@@ -111,6 +113,7 @@ def build(kinds, rot=0):
             emit(value)
             ve = pos
             d = Decl(ns, ne, vs, ve, pos, stack[-1] if stack else None)
+            d.tokens = [(vs + a, vs + b) for (a, b) in TOKENS[value]]
             emit(';')
             if stack:
                 stack[-1].children.append(d)
